@@ -122,7 +122,24 @@ fn fault_one<B: FA, H: ElementHasher<BaseField = B> + Send + Sync>(c: &FaultCase
     if c.in_aux && desc.aux.is_some() {
         // fault in the auxiliary segment, injected after it has been built
         let aux = desc.aux.as_ref().unwrap();
-        let acol = pick_index(c.col_sel, aux.cols.len());
+        // the Lagrange kernel column (last one, if present) takes part too: its boundary constraint and its
+        // log2(n) transition constraints determine every row, so any cell fault makes it invalid, while
+        // scaling the whole column keeps the (homogeneous) transition constraints and breaks the boundary only
+        let acol = if aux.lagrange && (c.col_sel / 3) % 2 == 1 { aux.cols.len() } else { pick_index(c.col_sel, aux.cols.len()) };
+        if acol == aux.cols.len() {
+            let whole = (c.col_sel / 6) % 2 == 0;
+            obs.label(if whole { "aux-fault:lagrange-boundary-only" } else { "aux-fault:lagrange-cell" });
+            let fault = AuxFault { col: acol, row: step, delta: (delta as u32).max(1), whole_column: whole };
+            let accepted = prove_and_verify::<B, H>(&desc, &inst.trace, options, Some(fault), obs)?;
+            obs.nontrivial();
+            if accepted {
+                return Err(Fail::new(
+                    "accepted-invalid/lagrange-kernel-cell",
+                    format!("a proof whose Lagrange kernel column was corrupted ({}) was accepted (n = {n})", if whole { "whole column scaled".to_string() } else { format!("row {step}") }),
+                ));
+            }
+            return Ok(());
+        }
         // regular aux columns: the rule is applied on every row, so rows 0..=n-k are constrained
         // (row r is `current` of step r or `next` of step r-1); row 0 is also asserted
         // every third aux fault transforms the whole column consistently with the transition rule, so
@@ -199,10 +216,10 @@ impl SubCheck for CellFault {
         "a valid GenAir instance (C01 family, smaller sizes) plus one fault: a non-zero delta added to one cell; step drawn from {0, 1, n-k-1, n-k, n-k+1, n-1} / asserted steps of every assertion / random, column from {0, w-1, asserted, random}; or a fault in an auxiliary-segment cell; oracle = reference validity predicate; non-trivial = the fault makes the trace invalid (and an answer was obtained from the verifier or prover)".into()
     }
     fn required_labels(&self, _t: Tier) -> Vec<String> {
-        ["fault:trace-invalid", "fault:trace-still-valid", "step=last-enforced", "step=n-k", "step=asserted", "step=0", "aux-fault:invalidating", "aux-fault:assertion-only"].iter().map(|s| s.to_string()).collect()
+        ["fault:trace-invalid", "fault:trace-still-valid", "step=last-enforced", "step=n-k", "step=asserted", "step=0", "aux-fault:invalidating", "aux-fault:assertion-only", "aux-fault:lagrange-cell", "aux-fault:lagrange-boundary-only"].iter().map(|s| s.to_string()).collect()
     }
     fn strategy(&self, tier: Tier) -> BoxedStrategy<FaultCase> {
-        (shape_strategy(&small_params(tier)), any::<u16>(), any::<u16>(), prop_oneof![Just(X(1)), any::<u128>().prop_map(X)], prop::bool::weighted(0.2))
+        (shape_strategy(&small_params(tier)), any::<u16>(), any::<u16>(), prop_oneof![Just(X(1)), any::<u128>().prop_map(X)], prop::bool::weighted(0.3))
             .prop_map(|(shape, col_sel, step_sel, delta, in_aux)| FaultCase { shape, col_sel, step_sel, delta, in_aux })
             .boxed()
     }
